@@ -77,7 +77,8 @@ type Conn struct {
 	Mode       string
 	PageSize   uint32
 	SectorSize uint32
-	KeepJFD    bool // keep the journal descriptor open between transactions (PERSIST/TRUNCATE)
+	KeepJFD    bool  // keep the journal descriptor open between transactions (PERSIST/TRUNCATE)
+	T          *Tape // choice source of this connection (the run's tape, or an actor's fork)
 
 	dbf   *File
 	jf    *File
@@ -90,11 +91,18 @@ type Conn struct {
 	// OnCommitPoint, if set, is called at the instant COMMIT returns success
 	// to SQLite's caller (journal finalised / WAL write lock released).
 	OnCommitPoint func()
+	// OnFinalized, if set, is called right after the step that ends a write
+	// transaction of any outcome (journal finalised / WAL write lock released),
+	// before any further file operation.
+	OnFinalized func()
+	// OnNewImage, if set, is told the image a write transaction is about to
+	// commit, before anything is written.
+	OnNewImage func(im *Image)
 }
 
 // NewConn creates a connection object; Open must be called before use.
 func (n *Node) NewConn(db string, mode string, pageSize uint32) *Conn {
-	c := &Conn{r: n.r, n: n, k: n.K, DB: db, Owner: n.NewOwner(), Mode: mode, PageSize: pageSize, SectorSize: 512}
+	c := &Conn{r: n.r, n: n, k: n.K, DB: db, Owner: n.NewOwner(), Mode: mode, PageSize: pageSize, SectorSize: 512, T: n.r.Tape}
 	c.ID = int(c.Owner % 1000)
 	return c
 }
@@ -105,6 +113,7 @@ func (c *Conn) Open() syscall.Errno {
 	if e != 0 {
 		return e
 	}
+	f.ownerTape = c.T
 	c.dbf = f
 	return 0
 }
@@ -318,22 +327,26 @@ func (c *Conn) ReadImageLocked() (*Image, syscall.Errno) {
 	if size == 0 {
 		return nil, 0
 	}
-	if _, ok, e := c.ReadHeader(); e != 0 {
+	hdr, ok, e := c.ReadHeader()
+	if e != 0 {
 		return nil, e
 	} else if !ok {
 		return nil, syscall.EILSEQ
 	}
 	im := &Image{PageSize: c.PageSize}
 	n := uint32(size / int64(c.PageSize))
+	// SQLite trusts the in-header size; a file that is longer (the truncate
+	// after a shrinking commit did not happen yet) is cut logically.
+	if hdr.SizePages > 0 && hdr.SizePages < n {
+		n = hdr.SizePages
+		c.r.Count("reader.file-longer-than-header")
+	}
 	for pg := uint32(1); pg <= n; pg++ {
 		p, e := c.ReadPage(pg)
 		if e != 0 {
 			return nil, e
 		}
 		im.Pages = append(im.Pages, p)
-	}
-	if size%int64(c.PageSize) != 0 {
-		return im, syscall.EILSEQ
 	}
 	return im, 0
 }
@@ -448,10 +461,37 @@ func (c *Conn) syncJournal(j *jstate, nosync bool) (string, syscall.Errno) {
 func (c *Conn) WriteTx(prog TxProgram, ref *Image) (res TxResult) {
 	c.txSeq++
 	tx := c.txSeq
+	var jr *jstate                   // journal state once the journal exists
+	var writtenPages map[uint32]bool // pages written in place so far
 	fail := func(at string, e syscall.Errno) TxResult {
 		out := "error"
 		if e == syscall.EAGAIN {
 			out = "busy"
+		}
+		// SQLite reacts to an I/O error or BUSY inside a write transaction by
+		// rolling the transaction back: pages already written in place are
+		// restored from the journal, the file is cut back and the journal is
+		// finalised. If that fails too the journal stays hot.
+		if jr != nil && c.jf != nil && c.dbf != nil {
+			c.r.Count("pager.error-rollback")
+			ok := true
+			for _, rec := range jr.recs {
+				if writtenPages[rec.pgno] {
+					if c.dbf.Pwrite(int64(rec.pgno-1)*int64(c.PageSize), rec.orig) != 0 {
+						ok = false
+					}
+				}
+			}
+			if ok {
+				if sz, e2 := c.dbf.Size(); e2 == 0 && sz > int64(jr.origSize)*int64(c.PageSize) && len(writtenPages) > 0 {
+					if c.dbf.Truncate(int64(jr.origSize)*int64(c.PageSize)) != 0 {
+						ok = false
+					}
+				}
+			}
+			if ok {
+				c.finalizeJournal()
+			}
 		}
 		c.abortTx()
 		return TxResult{Outcome: out, Errno: e, FailedAt: at}
@@ -487,11 +527,12 @@ func (c *Conn) WriteTx(prog TxProgram, ref *Image) (res TxResult) {
 	if e := c.openJournal(); e != 0 {
 		return fail("journal-open", e)
 	}
-	j := &jstate{nonce: 1 + uint32(c.r.Tape.Next(1<<30)), origSize: origSize}
+	j := &jstate{nonce: 1 + uint32(c.T.Next(1<<30)), origSize: origSize}
 	if e := c.jf.Pwrite(0, c.journalHeader(j, prog.NoSync)); e != 0 {
 		return fail("journal-header", e)
 	}
 	j.hdrOff, j.off = 0, int64(c.SectorSize)
+	jr = j
 
 	// Build the new image.
 	newIm := ref.Clone()
@@ -529,6 +570,10 @@ func (c *Conn) WriteTx(prog TxProgram, ref *Image) (res TxResult) {
 		}
 	}
 
+	if c.OnNewImage != nil && prog.Outcome == OutCommit {
+		c.OnNewImage(newIm)
+	}
+
 	// Pages that need a journal record: modified pages that existed before and
 	// survive... SQLite journals a page before changing it, including pages it
 	// later truncates away only if they were touched; free-list pages that are
@@ -542,6 +587,7 @@ func (c *Conn) WriteTx(prog TxProgram, ref *Image) (res TxResult) {
 	sort.Slice(toJournal, func(a, b int) bool { return toJournal[a] < toJournal[b] })
 
 	written := map[uint32]bool{} // pages already written in place (after a spill)
+	writtenPages = written
 	exclusive := false
 	spillIdx := 0
 	spill := func() (string, syscall.Errno) {
@@ -627,6 +673,9 @@ func (c *Conn) WriteTx(prog TxProgram, ref *Image) (res TxResult) {
 		if at, e := c.finalizeJournal(); e != 0 {
 			return fail(at, e)
 		}
+		if c.OnFinalized != nil {
+			c.OnFinalized()
+		}
 		c.Downgrade()
 		c.UnlockAll()
 		return TxResult{Outcome: OutRollback}
@@ -656,6 +705,9 @@ func (c *Conn) WriteTx(prog TxProgram, ref *Image) (res TxResult) {
 	}
 	if c.OnCommitPoint != nil {
 		c.OnCommitPoint()
+	}
+	if c.OnFinalized != nil {
+		c.OnFinalized()
 	}
 	// Only now is the file cut if the database shrank.
 	if prog.NewSize < origSize {
